@@ -3472,3 +3472,20 @@ where
         .collect::<Vec<_>>()
         .join(", ")
 }
+
+/// Verification hooks (compiled only with `--cfg libp2p_verif`).
+#[cfg(libp2p_verif)]
+pub mod verif_hooks {
+    use super::*;
+
+    /// The expiry a received record is stored with, given the expiry derived from the
+    /// sender's TTL and the one derived from the local record TTL.
+    pub fn merged_expiry(received: Option<Instant>, local: Option<Instant>) -> Option<Instant> {
+        earliest_expiry(received, local)
+    }
+
+    /// The local record TTL after `exp_decrease` by the number of nodes beyond `k`.
+    pub fn decreased_ttl(ttl: Duration, exp: u32) -> Duration {
+        exp_decrease(ttl, exp)
+    }
+}
